@@ -165,7 +165,7 @@ func cholCase(t *vlib.T, n int, f symFamInfo, v int, rep string, cfg solveCfg) {
 	if !relClose(math.Exp(ch.LogDet()), ref, tol) {
 		t.Failf("LogDet = %v, reference det %v", ch.LogDet(), ref)
 	}
-	condBand(t, "Cholesky.Cond", ch.Cond(), kinf, 10, 1.01)
+	condBand(t, "Cholesky.Cond", ch.Cond(), kinf, 3, 1.01)
 	s.run(t, cfg)
 
 	// InverseTo
@@ -293,7 +293,7 @@ func pcholCase(t *vlib.T, n int, f symFamInfo, v int, rep string, cfg solveCfg) 
 	s := &solver{name: "PivotedCholesky", A: A, aliasOK: true, fullRank: true,
 		solve: noTrans(ch.SolveTo), solveVec: noTransVec(ch.SolveVecTo), cond: ch.Cond}
 	s.prepare()
-	condBand(t, "PivotedCholesky.Cond", ch.Cond(), normInf(A)*normInf(s.pinv), 10, 1.01)
+	condBand(t, "PivotedCholesky.Cond", ch.Cond(), normInf(A)*normInf(s.pinv), 3, 1.01)
 	s.run(t, cfg)
 }
 
